@@ -433,6 +433,9 @@ theorem lead_melody_reachable_in_range (ops : List LOp) (l : LeadSheet) (hi : LI
     ∀ e ∈ (lrunSkip l ops).melody.events, -2 ≤ e ∧ e ≤ 127 :=
   melody_events_in_range _ (lead_inv_reachable' ops l hi hok).1
 
+example : (lrunSkip ⟨⟨[60], 0, 1, 16, 4⟩, ⟨["C"], 0, 1, 16, 4⟩⟩
+    [.append 200 "G", .append 127 "G", .setLength 4, .sliceStep none none (-1)]).melody.events = [-2, -2, 127, 60] := by decide
+
 /-! ## Extended slices `s[i:j:k]`
 
 What the code does with a stride (and the model transcribes): `self._events.__getitem__(key)`
@@ -461,6 +464,8 @@ theorem py_slice_step_unit (l : List α) (i j : Option Int) :
     pySliceStep l i j 1 = pySlice l i j ∧ stepLo l.length 1 i = (sliceLo l.length i : Int) :=
   ⟨pySliceStep_one l i j, stepLo_one l.length i⟩
 
+example : pySliceStep [10, 11, 12, 13] (some (-3)) (some 3) 1 = [11, 12] ∧ stepLo 4 1 (some (-3)) = 1 := by decide
+
 /-- `s[i:j:k]`, `k ≠ 0`: offset, events, resolution; always succeeds on a consistent sequence and
 gives a consistent sequence with `len(range(lo, hi, k))` events -/
 theorem strided_slice_result (c : Cls α) (hc : Lawful c) (s : Seq α) (i j : Option Int) (k : Int) (hk : k ≠ 0)
@@ -481,6 +486,8 @@ theorem strided_slice_result (c : Cls α) (hc : Lawful c) (s : Seq α) (i j : Op
 theorem strided_slice_zero_step (c : Cls α) (s : Seq α) (i j : Option Int) :
     step c s (.sliceStep i j 0) = .error .valueError ∧ stepSkip c s (.sliceStep i j 0) = s := by
   simp [step, stepSkip]
+
+example : step melodyCls ⟨[60, -2], 4, 6, 16, 4⟩ (.sliceStep (some 1) none 0) = .error .valueError := rfl
 
 /-- where the elements of `s[i:j:k]` come from and where the slice says they are: element `m` is
 the source element at absolute step `start + lo + m·k` (a step of the source), the slice reports it
@@ -541,6 +548,10 @@ theorem lead_strided_slice_ok (l : LeadSheet) (i j : Option Int) (k : Int) (hk :
     simp only [lstep, hm, hc, bind, Except.bind]; exact hmk
   refine ⟨_, hl, lead_inv_step' l _ (.sliceStep i j k) ⟨im, ic, hlen, hst, hsp, hb, hq⟩ trivial hl, m1, m3, c2, m2⟩
 
+example : ∃ l', lstep ⟨⟨[60, -2, -1, 62], 0, 4, 16, 4⟩, ⟨["C", "C", "G", "G"], 0, 4, 16, 4⟩⟩ (.sliceStep none none (-1)) = .ok l' ∧
+    l'.iter = [(62, "G"), (-1, "G"), (-2, "C"), (60, "C")] ∧ l'.melody.start = 3 ∧ l'.melody.stop = 7 :=
+  ⟨_, rfl, by decide, by decide, by decide⟩
+
 /-! ## NotePerformance
 
 Not in the property's list of classes (its `set_length` is a documented no-op, so "set_length(n)
@@ -562,6 +573,9 @@ theorem nperf_step (p : NPerf) (e : NEvent) (n : Int) :
     omega
   · simp only [pySlice, sliceLo, List.drop_zero]
     exact List.take_prefix _ _
+
+example : (nrunSkip ⟨[], 3, 10⟩ [.append ⟨2, 60, 5, 4⟩, .append ⟨1, 62, 5, 2⟩, .appendBad, .truncate (-1)]).events = [⟨2, 60, 5, 4⟩] := by
+  decide
 
 /-- the real behaviour of `NotePerformance.set_length`: nothing happens, whatever the arguments -/
 theorem nperf_set_length_noop (p : NPerf) (n : Int) (fl : Bool) :
@@ -586,6 +600,10 @@ theorem nperf_observations_consistent (p : NPerf) :
   intro h
   obtain ⟨a, b⟩ := nstepsFrom_mono p.start p.events h
   exact ⟨b, a⟩
+
+example : (⟨[⟨2, 60, 5, 4⟩, ⟨1, 62, 5, 2⟩], 3, 10⟩ : NPerf).steps = [5, 6] ∧
+    (⟨[⟨2, 60, 5, 4⟩, ⟨1, 62, 5, 2⟩], 3, 10⟩ : NPerf).numSteps = 5 ∧
+    (⟨[⟨2, 60, 5, 4⟩, ⟨1, 62, 5, 2⟩], 3, 10⟩ : NPerf).stop = 8 := by decide
 
 /-- after any history: start and max_shift_steps are what they were, and every shift is
 non-negative if the initial and the appended ones are -/
